@@ -32,6 +32,7 @@ type Field struct {
 	FromBytesStrict         bool
 	FromBytesMax            *big.Int
 	InvZeroDefined          bool
+	FoldBits                uint // >0: raw elements of this many bits over a pseudo-Mersenne prime; operand pairs whose product needs the SECOND carry fold are added
 	MontBits                uint // >0: elements are kept in Montgomery form with R = 2^MontBits; operands whose INTERNAL limbs are structured are added
 }
 
@@ -197,6 +198,51 @@ func Run(f *Field, rng *rand.Rand, n int, emit func(Event)) {
 		}
 		return v
 	}
+	// second-fold corners (pseudo-Mersenne fields with raw elements of W bits, c = 2^W mod p): x * y = (h+1) * 2^W - 1 - r with r + 1 <= c * h,
+	// so that the low part plus c times the high part overflows W bits once more; likewise x * x
+	foldPair := func() (*big.Int, *big.Int) {
+		w := new(big.Int).Lsh(big.NewInt(1), f.FoldBits)
+		c := new(big.Int).Mod(w, f.P)
+		for try := 0; try < 200; try++ {
+			x := new(big.Int).Rand(rng, w)
+			if rng.Intn(2) == 0 {
+				x.Rsh(x, uint(rng.Intn(int(f.FoldBits)-8)))
+			}
+			if x.BitLen() < 8 {
+				continue
+			}
+			lo := new(big.Int).Add(new(big.Int).Div(x, c), big.NewInt(1))
+			span := new(big.Int).Sub(new(big.Int).Sub(x, big.NewInt(2)), lo)
+			if span.Sign() <= 0 {
+				continue
+			}
+			h := new(big.Int).Add(lo, new(big.Int).Rand(rng, span))
+			top := new(big.Int).Sub(new(big.Int).Mul(new(big.Int).Add(h, big.NewInt(1)), w), big.NewInt(1))
+			y, r := new(big.Int).DivMod(top, x, new(big.Int))
+			if y.Cmp(w) < 0 && new(big.Int).Add(r, big.NewInt(1)).Cmp(new(big.Int).Mul(c, h)) <= 0 {
+				return x, y
+			}
+		}
+		return pick(), pick()
+	}
+	foldSquare := func() *big.Int {
+		w := new(big.Int).Lsh(big.NewInt(1), f.FoldBits)
+		c := new(big.Int).Mod(w, f.P)
+		for try := 0; try < 200; try++ {
+			h := new(big.Int).Rand(rng, w)
+			h.SetBit(h, int(f.FoldBits)-1-rng.Intn(6), 1)
+			if h.Cmp(new(big.Int).Sub(w, big.NewInt(2))) >= 0 {
+				continue
+			}
+			top := new(big.Int).Sub(new(big.Int).Mul(new(big.Int).Add(h, big.NewInt(1)), w), big.NewInt(1))
+			x := new(big.Int).Sqrt(top)
+			r := new(big.Int).Sub(top, new(big.Int).Mul(x, x))
+			if x.Cmp(w) < 0 && new(big.Int).Add(r, big.NewInt(1)).Cmp(new(big.Int).Mul(c, h)) <= 0 {
+				return x
+			}
+		}
+		return pick()
+	}
 	kp := new(big.Int).Lsh(f.P, 16)
 	base := func(op string, x, y, z int) Event {
 		return NewEvent(f, op, x, y, z, 0, 0)
@@ -260,7 +306,15 @@ func Run(f *Field, rng *rand.Rand, n int, emit func(Event)) {
 			b := bins[c]
 			if b.fn != nil {
 				vx, vy := pick(), pick()
-				if rng.Intn(3) == 0 { // related operands: equal low words, the difference sits in ONE higher word (borrows and carries have to travel)
+				if f.FoldBits > 0 && b.name == "mul" && rng.Intn(3) == 0 {
+					vx, vy = foldPair()
+					if rng.Intn(2) == 0 {
+						vx, vy = vy, vx
+					}
+					if pat[1] == pat[2] { // x and y are the same register
+						vx = foldSquare()
+					}
+				} else if rng.Intn(3) == 0 { // related operands: equal low words, the difference sits in ONE higher word (borrows and carries have to travel)
 					vy = related(vx, f.Max, rng)
 					if rng.Intn(2) == 0 {
 						vx, vy = vy, vx
@@ -269,6 +323,10 @@ func Run(f *Field, rng *rand.Rand, n int, emit func(Event)) {
 				doBin(b, pat, vx, vy)
 			}
 		case c == 3 && f.Sqr != nil:
+			if f.FoldBits > 0 && rng.Intn(3) == 0 {
+				f.Set(x, foldSquare())
+				px = f.Get(x)
+			}
 			e := base("sqr", x, x, z)
 			e.Pre = f.snapshot()
 			f.Sqr(z, x)
